@@ -13,7 +13,17 @@
            json / msgpack, validated by the correspondence run, not proved.
      dec = Pyro5's load-side layer (msgpack ext_hook / object_hook, recreate_classes).
    Which layers are present on which path is the hook table [tb], regenerated from
-   serializers.py on every run (Gen/GenSerializers.v). *)
+   serializers.py on every run (Gen/GenSerializers.v).
+
+   ASSUMPTION made explicit by the signature of [wire]: the delivered value is a function of
+   (hook table, serializer, path, value) ONLY.  It does not depend on the type of buffer the
+   protocol layer hands to loads/loadsCall (bytes; a memoryview slice when the message carries
+   annotation chunks; bytes again after zlib.decompress; bytearray), nor on request / response
+   annotations, the correlation id or compression.  [wire] has no such parameter, so the harness
+   observes every case under all of these configurations against the same model outcome: any
+   dependence shows up as a correspondence mismatch and as the oracle violations
+   buffer-type-dependent / value-changes-with-message-annotations / value-changes-with-correlation-id /
+   compression-changes-value. *)
 From Coq Require Import List NArith ZArith Bool.
 Import ListNotations.
 From V Require Import Model.Values Gen.GenSerializers.
